@@ -111,7 +111,10 @@ def gen_venn(ctx, ncases):
         nchan = rng.choice([4, 8, 12, 16, 32])
         tmax = rng.choice([0, 1, 5, 20, 60, 150])
         chunk = rng.choice([1, 2, xbin, xbin - 1 or 1, xbin + 1, 2 * xbin, 3 * xbin + 1, 10, 25, 64,
-                            tmax or 1, tmax + 1, tmax + 2, 1000, rng.randrange(1, 200)])
+                            tmax or 1, tmax + 1, tmax + 2, 1000, rng.randrange(1, 200),
+                            # every residue modulo the time bin
+                            rng.randrange(1, 5) * xbin + k % xbin, rng.randrange(0, 3) * xbin + k % xbin or 1,
+                            rng.randrange(1, 5) * xbin + k % xbin])
         if tmax // chunk > 60:
             chunk = max(chunk, tmax // 60 + 1)
         hi = nchan - 1 if rng.random() < 0.9 else nchan + 2 * ybin     # sometimes beyond the last bin: ValueError
@@ -358,6 +361,19 @@ def cadzow_oracle(ctx, kind, ncol, nrow, sites, meas, full=None, light=False):
     if not err < 1e-8:
         ctx.fail("cadzow.denoise at full rank does not return its input (max err %g)" % err, desc,
                  {"kind": "cadzow_identity", "layout": kind})
+    for niter in (2, 3):
+        try:
+            with np.errstate(all="ignore"):
+                on = cadzow.denoise(W, x, y, r=full, niter=niter)
+        except Exception as e:  # noqa
+            ctx.fail("cadzow.denoise(niter=%d) raised %r" % (niter, e), dict(desc, niter=niter),
+                     {"kind": "cadzow_exception", "layout": kind})
+            continue
+        en = float(np.max(np.abs(on - W))) if np.all(np.isfinite(on)) else float("inf")
+        meas["cadzow_fullrank_niter_max_err"] = max(meas.get("cadzow_fullrank_niter_max_err", 0.0), en)
+        if not en < 1e-8:
+            ctx.fail("cadzow.denoise(niter=%d) at full rank does not return its input (max err %g)" % (niter, en),
+                     dict(desc, niter=niter), {"kind": "cadzow_identity_niter", "layout": kind})
     if not (np.allclose(out_imax[:, :3], W[:, :3], atol=1e-8) and np.all(out_imax[:, 3:] == 0)):
         ctx.fail("cadzow.denoise(imax=3): processed frequencies differ from the input or others are not zero",
                  desc, {"kind": "cadzow_identity_imax", "layout": kind})
@@ -676,7 +692,7 @@ def _run(ctx):
             ctx.disagree("savgol: model reports an error / other length (%s), implementation returned %d values"
                          % (mo[:2], len(io_)), sg_desc[i])
             continue
-        mv = np.array([Fraction(a, b) for a, b in zip(mo[2::2], mo[3::2])], dtype=float)
+        mv = np.array([a + b / 2.0 ** 40 for a, b in zip(mo[2::2], mo[3::2])], dtype=float)
         scale = 1.0 + max(abs(v) for v in sg_desc[i]["y"])
         err = float(np.max(np.abs(mv - io_))) / scale if np.all(np.isfinite(io_)) else float("inf")
         worst_sg = max(worst_sg, err)
@@ -687,11 +703,24 @@ def _run(ctx):
     for i in bad:
         ctx.disagree("savgol: kernel-evaluated model differs from the extracted model", sg_desc[i])
     # NaN gaps: smooth_interpolate_savgol returns finite values everywhere
-    for k in range(40 if T else 12):
+    for k in range(48 if T else 16):
         n = rng.randrange(40, 120)
         sig = np.cumsum(np.array([rng.uniform(-1, 1) for _ in range(n)]))
-        nanpos = sorted(rng.sample(range(n), rng.randrange(1, n // 3)))
+        linear = k % 3 == 0
+        if linear:
+            sig = 0.25 * np.arange(n) - 3.0
+        nanset = set(rng.sample(range(n), rng.randrange(1, n // 4)))
+        pat = k % 4                          # NaN runs at the start / the end / both / interior only
+        if pat in (0, 2):
+            nanset |= set(range(0, rng.randrange(1, 6)))
+        if pat in (1, 2):
+            nanset |= set(range(n - rng.randrange(1, 6), n))
+        if pat == 3:
+            nanset -= {0, n - 1}
+        nanpos = sorted(nanset)
         sig[nanpos] = np.nan
+        count("savgol_nan_leading", 0 in nanset)
+        count("savgol_nan_trailing", (n - 1) in nanset)
         window = rng.choice([5, 7, 11, 31])
         order = rng.choice([1, 2, 3])
         desc = {"fn": "smooth_interpolate_savgol", "n": n, "nan_positions": nanpos, "window": window, "order": order,
@@ -708,6 +737,14 @@ def _run(ctx):
         if len(out) != n or not np.all(np.isfinite(out)):
             ctx.fail("smooth_interpolate_savgol leaves non-finite values / changes the length", desc,
                      {"kind": "savgol_nan_fill"})
+        elif linear:
+            # a straight line is reproduced by the filter (order >= 1) and by every interpolation /
+            # extrapolation kind, so the gaps and both ends must be filled with the line itself
+            err = float(np.max(np.abs(out - (0.25 * np.arange(n) - 3.0))))
+            meas["savgol_nan_linear_max_abs_err"] = max(meas.get("savgol_nan_linear_max_abs_err", 0.0), err)
+            if err > 1e-6:
+                ctx.fail("smooth_interpolate_savgol does not reproduce a straight line through NaN gaps (%g)" % err,
+                         desc, {"kind": "savgol_nan_linear"})
 
     lap("savgol")
     # ---------------- cadzow / svd ----------------
@@ -844,11 +881,11 @@ def replay(ctx, data):
         out = savgol_call(inp["window"], inp["polynom"], inp["x"], inp["y"])
         model = common.Extracted(PROP).run_many([[5, inp["window"], inp["polynom"], len(inp["x"])] + inp["x"] + inp["y"]])[0]
         print("implementation:", out)
-        print("model:", [float(Fraction(a, b)) for a, b in zip(model[2::2], model[3::2])] if model[0] == 1 else model)
+        print("model:", [a + b / 2.0 ** 40 for a, b in zip(model[2::2], model[3::2])] if model[0] == 1 else model)
         if isinstance(out, tuple):
             bad.append("raised")
         elif model[0] == 1:
-            mv = np.array([Fraction(a, b) for a, b in zip(model[2::2], model[3::2])], dtype=float)
+            mv = np.array([a + b / 2.0 ** 40 for a, b in zip(model[2::2], model[3::2])], dtype=float)
             if not np.allclose(mv, out, rtol=0, atol=1e-6 * (1 + max(abs(v) for v in inp["y"]))):
                 bad.append("model differs")
     elif fn.startswith("cadzow"):
